@@ -66,6 +66,12 @@ def universe():
     # labels that differ although their raw values coincide: tz-aware vs naive stamps, stamps vs their epoch-ns integers
     ns = [1577836800000000000, 1577923200000000000, 1578009600000000000]
     u += [{'$tsz': [IDX, [1.0, 2.0, 3.0], 'UTC']}, {'$tsz': [IDX, [1.0, 2.0, 3.0], 'US/Eastern']}, {'$sr': [ns, [1.0, 2.0, 3.0], 'float64']}, {'$sr': [[{'$dt': i} for i in IDX], [1.0, 2.0, 3.0], 'float64']}]
+    # datetime cells are not their epoch counts, NaT is not None
+    u += [A('datetime64[ns]', ['2020-01-01T00:00:00']), A('int64', [1577836800000000000]), A('datetime64[ns]', ['2020-01-01T00:00:00', 'NaT']), A('datetime64[ns]', ['NaT']), A('object', [None]),
+          A('timedelta64[s]', [5]), A('int64', [5]), A('datetime64[us]', ['2020-01-01T00:00:00']), A('object', [{'$dt': '2020-01-01T00:00:00'}]),
+          {'$sr': [[0], ['2020-01-01T00:00:00'], 'datetime64[ns]']}, {'$sr': [[0], [1577836800000000000], 'int64']}]
+    # a NaN label is a label: a series / frame with one still equals its copy
+    u += [{'$sr': [[nan(40), 1.0], [1.0, 2.0], 'float64']}, {'$sr': [[2.0, 1.0], [1.0, 2.0], 'float64']}, {'$frame': [[0, 1], [nan(41), 'a'], [[1, 2], [3, 4]]]}, {'$frame': [[0, 1], ['b', 'a'], [[1, 2], [3, 4]]]}]
     # infinities of both signs among the cells
     u += [A('float64', [{'$inf': 1}, {'$inf': -1}, 1.0]), A('float64', [{'$inf': 1}, 1.0, 1.0]), {'$ts': [IDX, [{'$inf': 1}, {'$inf': -1}, 3.0]]}, [A('float64', [{'$inf': -1}, {'$inf': 1}])],
           {'$df': [IDX, ['a', 'b'], [[{'$inf': 1}, 2.0], [3.0, {'$inf': -1}], [5.0, 6.0]]]}]
@@ -192,9 +198,9 @@ def model_eq(x, y):
     if kx == 'ndarray':
         return x.shape == y.shape and all(model_eq(a, b) for a, b in zip(_cells(x), _cells(y)))
     if kx == 'Series':
-        return len(x) == len(y) and list(x.index) == list(y.index) and all(model_eq(a, b) for a, b in zip(_cells(x.values), _cells(y.values)))
+        return len(x) == len(y) and model_eq(list(x.index), list(y.index)) and all(model_eq(a, b) for a, b in zip(_cells(x.values), _cells(y.values)))
     if kx == 'DataFrame':
-        return x.shape == y.shape and list(x.index) == list(y.index) and list(x.columns) == list(y.columns) and \
+        return x.shape == y.shape and model_eq(list(x.index), list(y.index)) and model_eq(list(x.columns), list(y.columns)) and \
             all(model_eq(a, b) for a, b in zip(_cells(x.values), _cells(y.values)))
     if _sc_nan(x) or _sc_nan(y):
         return _sc_nan(x) == _sc_nan(y)       # NaN matches NaN, NaT matches NaT, neither matches the other or anything else
